@@ -10,6 +10,9 @@
   Reading the shapes.  `t`, `e`, `i`, `s` are the receivers (template, exporter, importer, streamer);
   every shape includes "and nothing else": no other call on the path, no field of the receiver
   written unless the shape says so.  An order of calls that a shape spells out is the order found.
+  The fields of the four structs are told apart by their TYPE, not by their name (`e.t` is the exporter's
+  field of type Template whatever it is called); helpers of the four files are inlined wherever they are
+  called, so a body moved into a helper is the same tree.
 -/
 import Model.Basic
 
@@ -155,7 +158,9 @@ inductive Export
       `_, err := e.w.Write(append(b, sep))` — an error: `return <err>`;
       `return nil`.
       So: exactly ONE `Write`, of the row's bytes followed by the byte `sep`, and no `Write` at all
-      when `CreateRow` or `MarshalJSON` failed. -/
+      when `CreateRow` or `MarshalJSON` failed.  The written bytes are `append(b, sep)` or the value of a
+      function of the file that copies `b` into a fresh buffer of `len(b)+1` bytes and puts `sep` last
+      (the same bytes; the translator recognises that body and nothing else). -/
   | oneWrite (sep : Nat) (err : ErrRet)
   | unknown (text : String)
   deriving DecidableEq, Repr
